@@ -42,6 +42,8 @@ class Monitors(ApplyMonitors, WireMonitors, MapMonitors, MiscMonitors, MonBase):
             return self.c17_probe(ev)
         if ev.get("what") == "c17round":
             return self.c17_round(ev)
+        if ev.get("what") == "replay_from_zero":
+            return self.replay_from_zero(ev)
         return "noprobe"
 
     def on_finish(self):
